@@ -731,7 +731,7 @@ func runC36(c *core.Ctx) error {
 	// ---------------- TLC validates what was recorded ----------------
 	// order: traced first (budget), then summaries
 	sort.SliceStable(segs, func(i, j int) bool { return segs[i].res.Traced && !segs[j].res.Traced })
-	budget := c.Pick(75000, 1500000)
+	budget := c.Pick(75000, 1000000)
 	var use []segment
 	total, skipped := 0, 0
 	for _, s := range segs {
